@@ -46,19 +46,25 @@ def maskCell (rows : CRows) (L start len : Int) (mr : MaskRep) (rep0 : Byte) (no
     (i : Nat) (c : Byte) : Byte :=
   if inWindow L start len i && !protectedCell nogap useRef refs i c then repAt rows mr rep0 i else c
 
-/-- `Mask(refseq, start, length, maskreplace, nogap, noref)`; `none` = error -/
-def mask (rows : CRows) (L : Int) (alphabet : Nat) (refseq : String) (start len : Int) (mr : MaskRep)
-    (nogap noref : Bool) : Option CRows :=
+/-- `Mask(refseq, start, length, maskreplace, nogap, noref)` with the outcome `found` of the lookup of the reference
+sequence (`GetSequenceByName`) supplied; `none` = error -/
+def maskWithRef (rows : CRows) (L : Int) (alphabet : Nat) (refseq : String) (start len : Int) (mr : MaskRep)
+    (nogap noref : Bool) (found : Option Seq) : Option CRows :=
   if start < 0 then none
   else if start > L then none
   else match repChar alphabet mr with
     | none => none
     | some rep0 =>
       let useRef := refseq != "" && noref
-      let ref : Option Seq := if useRef then (rows.find? fun r => r.1 == refseq).map Prod.snd else some []
+      let ref : Option Seq := if useRef then found else some []
       match ref with
       | none => none
       | some refs => some (rows.map fun r => (r.1, r.2.mapIdx fun i c => maskCell rows L start len mr rep0 nogap useRef refs i c))
+
+/-- `Mask(refseq, start, length, maskreplace, nogap, noref)`; `none` = error -/
+def mask (rows : CRows) (L : Int) (alphabet : Nat) (refseq : String) (start len : Int) (mr : MaskRep)
+    (nogap noref : Bool) : Option CRows :=
+  maskWithRef rows L alphabet refseq start len mr nogap noref ((rows.find? fun r => r.1 == refseq).map Prod.snd)
 
 /-- column entries counted by `MaskOccurences`: `(row index, char)` of rows that are not the reference
 and differ from it (or face a gap in the reference) -/
@@ -87,17 +93,23 @@ def maskOccLoop (rows : CRows) (refseq : String) (refs : Seq) (maxOcc : Int) (is
     let r := maskOccColumn rows refseq refs maxOcc isMaj rep i
     r.1 :: maskOccLoop rows refseq refs maxOcc isMaj t r.2
 
-/-- `MaskOccurences(refseq, maxOccurence, maskreplace)`; `none` = error -/
-def maskOccurences (rows : CRows) (L : Int) (alphabet : Nat) (refseq : String) (maxOcc : Int) (mr : MaskRep) : Option CRows :=
+/-- `MaskOccurences(refseq, maxOccurence, maskreplace)` with the outcome `found` of the lookup of the reference
+sequence supplied; `none` = error -/
+def maskOccWithRef (rows : CRows) (L : Int) (alphabet : Nat) (refseq : String) (maxOcc : Int) (mr : MaskRep)
+    (found : Option Seq) : Option CRows :=
   match repChar alphabet mr with
   | none => none
   | some rep0 =>
-    let ref : Option Seq := if refseq != "" then (rows.find? fun r => r.1 == refseq).map Prod.snd else some []
+    let ref : Option Seq := if refseq != "" then found else some []
     match ref with
     | none => none
     | some refs =>
       let cols := maskOccLoop rows refseq refs maxOcc (mr == .maj) (List.range L.toNat) rep0
       some (rows.zipIdx.map fun (r, j) => (r.1, cols.map fun col => col.getD j 0))
+
+/-- `MaskOccurences(refseq, maxOccurence, maskreplace)`; `none` = error -/
+def maskOccurences (rows : CRows) (L : Int) (alphabet : Nat) (refseq : String) (maxOcc : Int) (mr : MaskRep) : Option CRows :=
+  maskOccWithRef rows L alphabet refseq maxOcc mr ((rows.find? fun r => r.1 == refseq).map Prod.snd)
 
 /-- `MaskUnique(refseq, maskreplace)` is `MaskOccurences(refseq, 1, maskreplace)` -/
 def maskUnique (rows : CRows) (L : Int) (alphabet : Nat) (refseq : String) (mr : MaskRep) : Option CRows :=
